@@ -1509,6 +1509,8 @@ class Signature:
         consumed_positional = set()
         consumed_required_pos_only = set()
         consumed_keyword = set()
+        # their positional-or-keyword parameters that may be filled through our *args
+        filled_by_args = set()
         consumed_paramspec = False
         for i, my_param in enumerate(self.parameters.values()):
             my_annotation = my_param.get_annotation()
@@ -1598,6 +1600,15 @@ class Signature:
                     ParameterKind.POSITIONAL_OR_KEYWORD,
                     ParameterKind.KEYWORD_ONLY,
                 ):
+                    if (
+                        their_param.name in consumed_positional
+                        or their_param.name in filled_by_args
+                    ):
+                        # A call may fill it positionally and pass the keyword too.
+                        return CanAssignError(
+                            f"keyword-only param {my_param.name!r} is also filled by"
+                            " a positional argument"
+                        )
                     if my_param.default is not None and their_param.default is None:
                         return CanAssignError(
                             f"keyword-only param {my_param.name!r} has no default"
@@ -1640,6 +1651,7 @@ class Signature:
                     )
                 ]
                 for extra_param in extra_positional:
+                    filled_by_args.add(extra_param.name)
                     tv_map = extra_param.get_annotation().can_assign(my_annotation, ctx)
                     if isinstance(tv_map, CanAssignError):
                         return CanAssignError(
